@@ -10,6 +10,9 @@ import common
 from common import (MAP_KV, eq_structure, hash_sequence, is_asset_map_type, make_pt, map_access_mode,
                     map_call_kind, pt_deref)
 
+# a reference to a stored entry: looked up, kept by or_insert*, or one arm of `match map.entry(k)`
+KEPT = r"hash_map::Entry::<.*>::or_insert|hash_map::VacantEntry::<.*>::(insert|insert_entry)$|hash_map::OccupiedEntry::<.*>::(into_mut|get|get_mut)$"
+FROM_MAP = r'^std::collections::HashMap::<K, V, S, A>::get$|' + KEPT
 LEVEL = 'other'
 EXPLANATION = (
     'Ownership/effect analysis over the MIR of every feature configuration: every call that receives the asset '
@@ -97,6 +100,8 @@ def r1(R1, R3, cfg, F):
                         kk = map_call_kind(u[2])
                         if kk == 'KEEP_FIRST':
                             nkeep += 1
+                        elif kk == 'READ':
+                            pass    # Occupied arm of a match on the entry: look at the value that is kept
                         else:
                             bad.append(u[2].callee.best if u[2].callee else '?')
                     elif u[0] == 'drop':
@@ -112,6 +117,20 @@ def r1(R1, R3, cfg, F):
             pl = s['place']
             if is_asset_map_type(pl['ty']) and any(e == 'deref' for e in pl['p']):
                 R1.bad(cfg, b.path, 'overwrite-map', 'assignment replaces a whole asset map through a reference', '%s:%s' % (b.file, s['line']))
+    # a stored entry replaced in place through the `&mut CacheEntry` that or_insert / into_mut hand out
+    for b in F.fn_bodies():
+        if b.path.startswith('entry::'):
+            continue   # the entry module owns the representation (C07 / C13 rules cover it)
+        for bb, j, s in b.assigns():
+            pl = s['place']
+            if pl['ty'] == 'entry::CacheEntry' and any(e == 'deref' for e in pl['p']):
+                R1.bad(cfg, b.path, 'overwrite-entry', 'assignment replaces a stored CacheEntry through a reference while handles to it may be alive', '%s:%s' % (b.file, s['line']))
+        for c in b.calls():
+            if c.callee and re.match(r'std::mem::(replace|swap|take)$', c.callee.best) and c.args:
+                a0 = c.args[0]
+                ty = a0['place']['ty'] if a0['k'] in ('copy', 'move') else a0.get('ty', '')
+                if re.match(r"&('\w+ )?mut entry::CacheEntry$", ty):
+                    R1.bad(cfg, b.path, 'overwrite-entry', '%s replaces a stored CacheEntry through a reference while handles to it may be alive' % c.callee.best, c.loc())
     R1.note(cfg, **counts)
     if counts['KEEP_FIRST'] < 2:
         R1.missing(cfg, 'two keep-first insertions (one per map type)')
@@ -158,7 +177,7 @@ def r2(R2, cfg, F):
         roots = b.call_roots(c.args[0], passthrough=PT_ENTRY_REF)
         names = sorted({r.callee.best for r in roots if r.callee})
         from_map = bool(roots) and all(
-            re.search(r'^std::collections::HashMap::<K, V, S, A>::get$|hash_map::Entry::<.*>::or_insert', n) for n in names)
+            re.search(FROM_MAP, n) for n in names)
         # no local CacheEntry (an argument of type CacheEntry) among the non-call roots
         other = [r for r in b.origins(c.args[0], passthrough=PT_ENTRY_REF) if r[0] not in ('call', 'agg')]
         R2.check(where and from_map and not other, cfg, b.path, 'extend_lifetime-on-map-entry',
@@ -217,7 +236,7 @@ def r5(R5, cfg, F):
             continue
         roots = b.call_roots(0, passthrough=PT_HANDLE)
         names = sorted({r.callee.best for r in roots if r.callee})
-        ok = bool(names) and all('hash_map::Entry' in n and '::or_insert' in n for n in names)
+        ok = bool(names) and all(re.search(KEPT, n) for n in names) and any('::or_insert' in n or 'VacantEntry' in n for n in names)
         R5.check(ok, cfg, b.path, 'returns-keep-first-result', 'AssetMap::insert must return the entry kept by or_insert (the winner); returns value of %s' % names, b.loc())
     b = F.body('anycache::RawCache::add_asset')
     if not b:
